@@ -85,20 +85,27 @@ pub unsafe fn ghost_dealloc(ptr: *mut u8, layout: Layout) {
     G_DEALLOCS += 1;
     crate::vrt::atomic::push(crate::vrt::atomic::K::Dealloc, 0, ptr as usize);
     let mut ok = false;
-    let mut i = 0;
-    while i < GN {
-        if i < G_N
-            && G_LIVE[i]
-            && G_PTR[i] == ptr as usize
-            && G_SIZE[i] == layout.size()
-            && G_ALIGN[i] == layout.align()
-            && !ok
-        {
-            ok = true;
-            G_LIVE[i] = false;
-        }
-        i += 1;
+    // loop-free scan (harnesses with small unwind bounds must not hit loops in the runtime)
+    macro_rules! slot {
+        ($i:expr) => {
+            if $i < G_N
+                && G_LIVE[$i]
+                && G_PTR[$i] == ptr as usize
+                && G_SIZE[$i] == layout.size()
+                && G_ALIGN[$i] == layout.align()
+                && !ok
+            {
+                ok = true;
+                G_LIVE[$i] = false;
+            }
+        };
     }
+    slot!(0);
+    slot!(1);
+    slot!(2);
+    slot!(3);
+    slot!(4);
+    slot!(5);
     G_OK = G_OK && ok;
     __rust_dealloc(ptr, layout.size(), layout.align());
 }
@@ -134,28 +141,31 @@ pub fn g_ok() -> bool {
 }
 pub fn g_live(p: usize) -> bool {
     unsafe {
-        let mut i = 0;
-        let mut r = false;
-        while i < GN {
-            if i < G_N && G_LIVE[i] && G_PTR[i] == p {
-                r = true;
-            }
-            i += 1;
+        macro_rules! slot {
+            ($i:expr) => {
+                ($i < G_N && G_LIVE[$i] && G_PTR[$i] == p)
+            };
         }
-        r
+        slot!(0) || slot!(1) || slot!(2) || slot!(3) || slot!(4) || slot!(5)
     }
 }
 /// (size, align) requested for the live block starting at `p`, (0,0) if none.
 pub fn g_req(p: usize) -> (usize, usize) {
     unsafe {
-        let mut i = 0;
         let mut r = (0, 0);
-        while i < GN {
-            if i < G_N && G_LIVE[i] && G_PTR[i] == p {
-                r = (G_SIZE[i], G_ALIGN[i]);
-            }
-            i += 1;
+        macro_rules! slot {
+            ($i:expr) => {
+                if $i < G_N && G_LIVE[$i] && G_PTR[$i] == p {
+                    r = (G_SIZE[$i], G_ALIGN[$i]);
+                }
+            };
         }
+        slot!(0);
+        slot!(1);
+        slot!(2);
+        slot!(3);
+        slot!(4);
+        slot!(5);
         r
     }
 }
@@ -171,14 +181,20 @@ pub fn g_last() -> (usize, usize, usize) {
 }
 pub fn g_live_count() -> usize {
     unsafe {
-        let mut i = 0;
         let mut c = 0;
-        while i < GN {
-            if i < G_N && G_LIVE[i] {
-                c += 1;
-            }
-            i += 1;
+        macro_rules! slot {
+            ($i:expr) => {
+                if $i < G_N && G_LIVE[$i] {
+                    c += 1;
+                }
+            };
         }
+        slot!(0);
+        slot!(1);
+        slot!(2);
+        slot!(3);
+        slot!(4);
+        slot!(5);
         c
     }
 }
@@ -193,17 +209,25 @@ pub fn g_same(s: (usize, usize)) -> bool {
 // ------------------------------------------------------------------------------------------
 // Abstract state of one allocation, as seen through an `Arc<T>` (DESIGN §4.1)
 // ------------------------------------------------------------------------------------------
+// Ghost reads go through POINTERS derived by pointer casts/arithmetic from the handle's own
+// pointer, never through integer->pointer casts: CBMC case-splits every int->ptr cast over all
+// objects (the union harnesses ran out of memory with integer-based helpers).
+pub type Cw = *const usize;
+/// pointer to the count word (repr(C): first field of the block)
+pub fn cw<T: ?Sized>(a: &Arc<T>) -> Cw {
+    a.p.as_ptr() as *const usize
+}
 pub fn cnt<T: ?Sized>(a: &Arc<T>) -> usize {
-    unsafe { *((*a.p.as_ptr()).count.as_ptr()) }
+    unsafe { *cw(a) }
 }
 pub fn set_cnt<T: ?Sized>(a: &Arc<T>, n: usize) {
     unsafe {
-        *((*a.p.as_ptr()).count.as_ptr()) = n;
+        *(cw(a) as *mut usize) = n;
     }
 }
-/// count word of the block that starts at `base` (caller guarantees the block is live)
-pub fn cnt_at(base: usize) -> usize {
-    unsafe { *(base as *const usize) }
+/// count word behind a snapshot pointer (caller guarantees the block is still live)
+pub fn rd(c: Cw) -> usize {
+    unsafe { *c }
 }
 pub fn base<T: ?Sized>(a: &Arc<T>) -> usize {
     a.p.as_ptr() as *const u8 as usize
@@ -232,12 +256,16 @@ pub fn valign_of<T: ?Sized>(p: *const T) -> usize {
 pub fn data<T: ?Sized>(a: &Arc<T>) -> usize {
     unsafe { base(a) + spec_off(core::mem::align_of_val(&(*a.p.as_ptr()).data)) }
 }
-/// block start for a payload pointer handed out by into_raw-style calls
+/// count word for a payload pointer handed out by into_raw-style calls (pointer arithmetic
+/// inside the same object)
+pub fn cw_of_data<T: ?Sized>(p: *const T) -> Cw {
+    (p as *const u8).wrapping_sub(spec_off_of(p)) as Cw
+}
 pub fn base_of_data<T: ?Sized>(p: *const T) -> usize {
     addr(p) - spec_off_of(p)
 }
 pub fn cnt_of_data<T: ?Sized>(p: *const T) -> usize {
-    cnt_at(base_of_data(p))
+    rd(cw_of_data(p))
 }
 pub fn valid_data_ptr<T: ?Sized>(p: *const T) -> bool {
     addr(p) >= spec_off_of(p) && (!g_on() || g_live(base_of_data(p))) && cnt_of_data(p) >= 1
@@ -303,31 +331,55 @@ pub fn valid<T: ?Sized>(a: &Arc<T>) -> bool {
 pub fn delta0<T: ?Sized>(a: &Arc<T>, old_cnt: usize, old_g: (usize, usize)) -> bool {
     cnt(a) == old_cnt && g_same(old_g)
 }
-/// post-state of releasing one owner of the block at `b` whose count was `n`
-pub fn released(b: usize, n: usize, old_g: (usize, usize)) -> bool {
+/// post-state of releasing one owner of the block whose count word is `c` and whose count was `n`
+pub fn released(c: Cw, n: usize, old_g: (usize, usize)) -> bool {
     unsafe {
         if n == 1 {
-            !g_on() || (G_DEALLOCS == old_g.1 + 1 && G_ALLOCS == old_g.0 && G_OK && !g_live(b))
+            !g_on() || (G_DEALLOCS == old_g.1 + 1 && G_ALLOCS == old_g.0 && G_OK && !g_live(c as usize))
         } else {
-            cnt_at(b) == n - 1 && g_same(old_g)
+            rd(c) == n - 1 && g_same(old_g)
         }
     }
+}
+
+// the same, seen through an OffsetArc (its word is the payload address)
+pub fn ocw<T>(o: &crate::OffsetArc<T>) -> Cw {
+    (o.ptr.as_ptr() as *const u8).wrapping_sub(spec_off(core::mem::align_of::<T>())) as Cw
+}
+pub fn obase<T>(o: &crate::OffsetArc<T>) -> usize {
+    addr(o.ptr.as_ptr() as *const T) - spec_off(core::mem::align_of::<T>())
+}
+pub fn ocnt<T>(o: &crate::OffsetArc<T>) -> usize {
+    rd(ocw(o))
+}
+pub fn ovalid<T>(o: &crate::OffsetArc<T>) -> bool {
+    addr(o.ptr.as_ptr() as *const T) >= spec_off(core::mem::align_of::<T>()) && glive_at(obase(o)) && ocnt(o) >= 1
+}
+/// build a handle through the library's own constructor, then make the count symbolic
+pub fn mk<T>(v: T, n: usize) -> Arc<T> {
+    let a = Arc::new(v);
+    set_cnt(&a, n);
+    a
 }
 
 /// post-state of make_mut / make_unique (C08): sole owner keeps its block untouched; a sharer
 /// is redirected to a fresh block with count 1 while the old block loses exactly one owner and
 /// stays live. `nb` = block the handle refers to afterwards, `rd` = address handed to the caller.
-pub fn cow_post(ob: usize, on: usize, og: (usize, usize), nb: usize, rd: usize, align: usize) -> bool {
+pub fn cow_post(oc: Cw, on: usize, og: (usize, usize), nc: Cw, ra: usize, align: usize) -> bool {
     unsafe {
-        rd == nb + spec_off(align)
-            && cnt_at(nb) == 1
+        ra == nc as usize + spec_off(align)
+            && rd(nc) == 1
             && if on == 1 {
-                nb == ob && g_same(og)
+                nc == oc && g_same(og)
             } else {
-                nb != ob
-                    && cnt_at(ob) == on - 1
+                nc != oc
+                    && rd(oc) == on - 1
                     && (!g_on()
-                        || (G_ALLOCS == og.0 + 1 && G_DEALLOCS == og.1 && G_OK && g_live(ob) && g_live(nb)))
+                        || (G_ALLOCS == og.0 + 1
+                            && G_DEALLOCS == og.1
+                            && G_OK
+                            && g_live(oc as usize)
+                            && g_live(nc as usize)))
             }
     }
 }
@@ -468,7 +520,12 @@ impl Probe for S1 {
         self.0[0]
     }
 }
-impl Probe for S16a16 {
+impl Probe for S9a8 {
+    fn probe(&self) -> u8 {
+        self.0[0]
+    }
+}
+impl Probe for S4a4 {
     fn probe(&self) -> u8 {
         self.0[0]
     }
@@ -606,5 +663,46 @@ pub mod atomic {
     pub fn fence(o: Ordering) {
         push(K::Fence, oc(o), 0);
         real::fence(o)
+    }
+}
+
+/// ExactSizeIterator over fresh tracked elements; `lie` is added to the truthful length report.
+pub struct TrIter {
+    pub left: usize,
+    pub lie: isize,
+}
+impl TrIter {
+    pub fn new(n: usize) -> Self {
+        TrIter { left: n, lie: 0 }
+    }
+    pub fn lying(reported: usize, actual: usize) -> Self {
+        TrIter { left: actual, lie: reported as isize - actual as isize }
+    }
+    fn rep(&self) -> usize {
+        let r = self.left as isize + self.lie;
+        if r < 0 {
+            0
+        } else {
+            r as usize
+        }
+    }
+}
+impl Iterator for TrIter {
+    type Item = Tr;
+    fn next(&mut self) -> Option<Tr> {
+        if self.left == 0 {
+            None
+        } else {
+            self.left -= 1;
+            Some(Tr::new())
+        }
+    }
+    fn size_hint(&self) -> (usize, Option<usize>) {
+        (self.rep(), Some(self.rep()))
+    }
+}
+impl ExactSizeIterator for TrIter {
+    fn len(&self) -> usize {
+        self.rep()
     }
 }
